@@ -26,33 +26,38 @@ RULE = ('three streams. paths: every string built from <= 5 components of {a, ab
         '(Spec only) on the recorded accesses. distinct+non-trivial = distinct (stream, string, placement, load path) '
         'whose run touched the file system beyond the named files')
 CLAIM = dict(
-    text=("Theorems (Coq, closed under the global context): C12_abspath_location (the posixpath model's normpath/abspath "
-          "preserve the POSIX location of a path and produce no '..' component), C12_include_contained_partial (a "
-          "resolved #include lies under the include root provided the text after the root prefix starts at a "
-          "separator), C12_include_contained_fixed + C12_include_root_fixed_sound (unconditional containment for the "
-          "model of the candidate patch), C12_require_contained_partial / _sane / C12_require_default_path (every "
-          "candidate handed to isfile lies under the directory its load-path pattern names, provided the require "
-          "string is non-empty and brings no '..' component; for the regenerated default path: under the requiring "
-          "file's directory), C12_monitor / C12_monitor_growing (soundness of the extracted monitors). The "
-          "unrestricted containment statements are FALSE of today's code: C12_include_contained_refuted "
-          "(`#include ../foobar/x.lua` from .../foo; carts-folder detection by string prefix) and "
-          "C12_require_contained_refuted (require(\"..\"), require(\"\")) carry vm_compute witnesses, all four "
-          "replayed on the implementation with canary files on every run and listed in findings/known_C12.json. "
-          "Tie: regex sources, PICO8_CART_PATHS, DEFAULT_LUA_PATH, the filter constants are regenerated and pinned; "
-          "the path functions are compared with posixpath on ~250,000 inputs; the resolution logic with "
-          "file.from_file / tool.main(build) in a sandbox tree; the Spec-only monitor runs on the recorded accesses."),
+    text=("Theorems (Coq, closed under the global context), about the model of the code after four `fix:` commits "
+          "(findings/known_C12.json): C12_include_contained (whatever the include string, cart name, working directory, "
+          "HOME and file system, a path process_includes goes on to open lies under the include root), "
+          "C12_include_root_sound (the root is a carts folder the cart lies in, or the cart's own directory), "
+          "C12_include_rejects_outside (a string denoting a place outside the root is rejected with "
+          "P8IncludeOutsideOfAllowedDirectory), C12_include_ok_spec; C12_require_contained (every candidate handed to "
+          "os.path.isfile / open lies under the directory its load-path pattern names, for every string the filter "
+          "lets through and every load path made of patterns DIR/NAME?SUFFIX), C12_require_contained_any_path, "
+          "C12_require_default_path (default path: under the requiring file's directory), C12_require_filter_spec; "
+          "C12_abspath_location (the posixpath model's normpath/abspath preserve the POSIX location and leave no "
+          "'..'); C12_monitor / C12_monitor_growing (soundness of the extracted monitors). "
+          "C12_include_prefix_variant_refuted and C12_require_variants_refuted: the statements are false for the "
+          "string-prefix tests / two-test filter the code had before the fixes (vm_compute witnesses), and for a "
+          "load path with a pattern like ?/../../x. Tie: the SHAPES of the two containment tests and of the require "
+          "filter, the regex sources, PICO8_CART_PATHS, DEFAULT_LUA_PATH, split/replace characters are regenerated "
+          "from the source and pinned (a reverted fix breaks a pin and the search replays the witness); the path "
+          "functions are compared with posixpath on ~250,000 inputs; the resolution logic with file.from_file / "
+          "tool.main(build) in a sandbox tree with canary files; the Spec-only monitor runs on the recorded accesses."),
     note=("Trusted: Coq kernel+VM, extraction, OCaml glue, the in-process wrappers around builtins.open / "
           "os.path.isfile / os.path.exists (harness/props/fsobs.py), the modelling of posixpath (correspondence-tested), "
           "POSIX resolution without symbolic links as the meaning of 'located under' (Spec/PathSpec.v). "
           "`~user` expansion and symlinks are not modelled. Level: proof for the model + monitor soundness; the "
-          "implementation is tied by bounded correspondence and the run-time monitor."),
-    technique='Coq proof over a posixpath model + refutation witnesses + extracted-model correspondence + extracted monitor on recorded file accesses',
+          "implementation is tied by regenerated test shapes, bounded correspondence and the run-time monitor."),
+    technique='Coq proof over a posixpath model + regenerated test shapes + extracted-model correspondence + extracted monitor on recorded file accesses',
     design_ref='8 C12')
 ASSUMPTIONS = ['paths are UTF-8 byte strings without NUL; os.getcwd() is absolute; HOME is set; no symbolic links inside the sandbox tree',
-               'os.path.isfile/exists probes count as accesses (the property\'s observe_at lists them)']
-PARTIAL = ('containment holds only under the excluding hypotheses spelled out in C12_include_contained_partial and '
-           'C12_require_contained_partial; the four escapes are known findings (findings/known_C12.json) with candidate '
-           'patches findings/patches/C12_*.diff')
+               'os.path.isfile/exists probes count as accesses (the property\'s observe_at lists them)',
+               'the Lua load path (--lua-path / PICO8_LUA_PATH) is the configuration of the person running the tool: '
+               'C12_require_contained covers load paths whose patterns have the form DIR/NAME?SUFFIX (pattern_saneb)']
+PARTIAL = ('symbolic links, mount points and `~user` are operating-system behaviour outside the model; load paths with '
+           'several placeholders or ".." after the placeholder are covered only by C12_require_contained_any_path '
+           '(hypothesis on the instantiated tail)')
 TRUSTED = ['in-process wrappers around builtins.open, os.path.isfile, os.path.exists (harness/props/fsobs.py)']
 
 # ---------------------------------------------------------------- sandbox layout
@@ -205,7 +210,8 @@ def generate(tier, rng):
 
 
 def corpus_cases():
-    # the refutation witnesses of Properties/C12.v, replayed with canary files
+    # the witnesses of the four fixed defects (Properties/C12.v *_variant_refuted), replayed with canary files:
+    # today's code must reject them
     yield {'kind': 'include', 'cart': 'foo', 'mode': 'abs', 'cwd': 't', 'inc': '../foobar/x.lua'}
     yield {'kind': 'include', 'cart': 'cartsX', 'mode': 'abs', 'cwd': 't', 'inc': '../cartsY/x.lua'}
     yield {'kind': 'require', 'req': '..', 'lp': 'rel', 'cwd': 'w/proj', 'mode': 'abs'}
